@@ -135,7 +135,13 @@ where
                     Ok(Some(infos)) => infos,
                 };
                 for info in infos {
-                    if reinsertion_picker.filter(&statistics, info.hash, info.addr.len as _).is_admitted() {
+                    // Only the copy the indexer still points to is alive. Superseded copies of the key (overwritten
+                    // versions are not invalidated on disk) must not be reinserted: they can never be served, and
+                    // reinserting them on every reclaim makes them immortal until they fill the device.
+                    let alive = indexer
+                        .get(info.hash)
+                        .is_some_and(|addr| addr.sequence == info.addr.sequence);
+                    if alive && reinsertion_picker.filter(&statistics, info.hash, info.addr.len as _).is_admitted() {
                         let buf = IoSliceMut::new(bits::align_up(PAGE, info.addr.len as _));
                         let (buf, res) = block.read(Box::new(buf), info.addr.offset as _).await;
                         if let Err(e) = res {
